@@ -1,5 +1,7 @@
 import OpusProofs.DecSkelApi
 import OpusProofs.DecSkelMs
+import OpusProofs.DecSkelMsFull
+import OpusProofs.DecSkelRanges
 /-
   Property C01 — "Decoding is total and memory-safe for arbitrary packets and call histories".
 
@@ -267,5 +269,151 @@ example : MsOracleOk (fun _ => (960, 4)) 1 (msOffs 1 ([120, 1, 2, 3].take (4 : I
     po := fun s hs => by
       have : s = 0 := by omega
       subst this; decide }
+
+/-- Multistream / projection, UNCONDITIONAL (the composition theorem): `opus_multistream_decode_native` with its REAL
+    per-stream calls — stream `s` decoded by the single-stream skeleton `decodeNative` on its own state and DSP oracle,
+    from the bytes left by the previous streams, self-delimited framing for all but the last stream, into `buf`
+    (`2·frame_size` samples).  For every layout, every packet / `len` / `frame_size` / `decode_fec`, every stream state
+    satisfying the decoder invariant and every oracle within the contracts: the call returns (no assertion, no hang)
+    `OPUS_BAD_ARG`, `OPUS_BUFFER_TOO_SMALL`, `OPUS_INVALID_PACKET` or `0 < n ≤ frame_size` — the
+    `OPUS_INTERNAL_ERROR` of :247-251 is unreachable — and every stream state satisfies the invariant afterwards (so
+    this holds after every history of multistream calls).  `opus_projection_decode*` is this function with another
+    `copy_channel_out` (opus_projection_decoder.c:239-264). -/
+theorem msDecodeFull_ret (os : Nat → Oracle) (hos : ∀ s, OracleOk (os s)) (l : Layout.ChannelLayout) (Fs : Int) (hFs : FsOk Fs)
+    (sts : List DecState) (hsts : ∀ st ∈ sts, DecInv st ∧ st.Fs = Fs) (hn : sts.length = l.nbStreams) (bs : Bytes)
+    (hb : BytesOk bs) (len frame_size fec : Int) (hlen : len ≤ bs.length) (sc : Bool) :
+    ∃ v, (msDecodeFull os l Fs sts bs len frame_size fec sc).ret = .ret v ∧ RetOk frame_size v ∧
+      (msDecodeFull os l Fs sts bs len frame_size fec sc).sts.length = l.nbStreams ∧
+      (∀ st ∈ (msDecodeFull os l Fs sts bs len frame_size fec sc).sts, DecInv st ∧ st.Fs = Fs) := by
+  obtain ⟨v, h1, h2, h3, h4⟩ := msDecodeFull_spec hos l Fs hFs sts hsts hn bs hb len frame_size fec hlen sc
+  exact ⟨v, h1, h2, h3, h4.sts⟩
+
+example : ∃ st, init 48000 2 = some st ∧ ∀ x ∈ [st], DecInv x ∧ x.Fs = 48000 :=
+  ⟨_, rfl, fun x hx => by simp only [List.mem_singleton] at hx; subst hx; exact ⟨init_inv (fs := 48000) (ch := 2) rfl, rfl⟩⟩
+
+/-- Multistream / projection write extents.  (1) Every access logged by every per-stream call (SILK / CELT writes,
+    the skeleton's own loops, soft clip) lies inside `buf` (`2·min(frame_size, 120 ms)` samples) or the scratch buffer
+    allocated for it, and has legal inner-call arguments.  (2) Every `copy_channel_out` call addresses an output channel
+    `< nb_channels` with `0 < count ≤ min(frame_size, 120 ms)`; hence for every sample index `i` below that count the
+    plain copy-out writes `dst[i·nb_channels + chan]` inside the caller's `frame_size·nb_channels` samples, the
+    projection copy-out (which writes a whole row `dst[i·nb_channels + row]`, `row < nb_channels`, and clears
+    `count·nb_channels` samples) likewise, and the source read `buf[2·i (+1)]` / `buf[i]` lies inside `buf`. -/
+theorem msDecode_writes (os : Nat → Oracle) (hos : ∀ s, OracleOk (os s)) (l : Layout.ChannelLayout) (Fs : Int) (hFs : FsOk Fs)
+    (sts : List DecState) (hsts : ∀ st ∈ sts, DecInv st ∧ st.Fs = Fs) (hn : sts.length = l.nbStreams) (bs : Bytes)
+    (hb : BytesOk bs) (len frame_size fec : Int) (hlen : len ≤ bs.length) (sc : Bool) :
+    (∀ lg ∈ (msDecodeFull os l Fs sts bs len frame_size fec sc).logs, ∃ st0, DecInv st0 ∧ st0.Fs = Fs ∧
+      ∀ e ∈ lg, EvOk e ∧ ∀ p n, e.extent? = some (p, n) →
+        (0 ≤ p.off ∧ 0 ≤ n ∧ p.off + n ≤ p.cap) ∧ PtrCapOk st0 (2 * min frame_size (Fs / 25 * 3)) p) ∧
+    (∀ c ∈ (msDecodeFull os l Fs sts bs len frame_size fec sc).copies,
+      c.chan < l.nbChannels ∧ 0 < c.frameSize ∧ c.frameSize ≤ min frame_size (Fs / 25 * 3) ∧
+      ∀ i : Int, 0 ≤ i → i < c.frameSize → ∀ row : Int, 0 ≤ row → row < (l.nbChannels : Int) →
+        0 ≤ i * (l.nbChannels : Int) + row ∧ i * (l.nbChannels : Int) + row < frame_size * (l.nbChannels : Int) ∧
+        2 * i + 1 < 2 * min frame_size (Fs / 25 * 3)) := by
+  obtain ⟨v, _, _, _, h4⟩ := msDecodeFull_spec hos l Fs hFs sts hsts hn bs hb len frame_size fec hlen sc
+  refine ⟨?_, ?_⟩
+  · intro lg hlg
+    obtain ⟨st0, a1, a2, a3⟩ := h4.logs lg hlg
+    exact ⟨st0, a1, a2, fun e he => ⟨(a3 e he).1, fun p n hx => evGood_extent (a3 e he) hx⟩⟩
+  · intro c hc
+    obtain ⟨c1, c2, c3⟩ := h4.copies c hc
+    refine ⟨c1, c2, c3, ?_⟩
+    intro i hi0 hi row hr0 hr
+    have := copy_index_bounds i c.frameSize (min frame_size (Fs / 25 * 3)) (l.nbChannels : Int) row ⟨hi0, hi⟩ c3 ⟨hr0, hr⟩
+    have hle : min frame_size (Fs / 25 * 3) * (l.nbChannels : Int) ≤ frame_size * (l.nbChannels : Int) :=
+      Int.mul_le_mul_of_nonneg_right (by omega) (by omega)
+    exact ⟨this.1, by omega, this.2.2.2⟩
+
+/-- The link to the tied skeleton: `msDecode` (the oracle-based multistream skeleton whose return value, per-stream
+    call arguments and `buf` size are compared with the C code on every run), fed with the answers of the real
+    per-stream calls, returns what the composed model returns and makes the same per-stream calls. -/
+theorem msDecode_refines (os : Nat → Oracle) (l : Layout.ChannelLayout) (Fs : Int) (sts : List DecState)
+    (hn : sts.length = l.nbStreams) (bs : Bytes) (len frame_size fec : Int) (sc : Bool) (v : Int)
+    (hret : (msDecodeFull os l Fs sts bs len frame_size fec sc).ret = .ret v) :
+    (msDecode (noOfRun os l fec sc (decide (len = 0)) (2 * min frame_size (Fs / 25 * 3)) sts 0 bs len (min frame_size (Fs / 25 * 3)))
+        Fs l.nbStreams bs len frame_size).1 = v ∧
+    (0 < frame_size →
+      (msDecode (noOfRun os l fec sc (decide (len = 0)) (2 * min frame_size (Fs / 25 * 3)) sts 0 bs len (min frame_size (Fs / 25 * 3)))
+        Fs l.nbStreams bs len frame_size).2.1 = (msDecodeFull os l Fs sts bs len frame_size fec sc).mscalls) :=
+  msDecodeFull_refines os l Fs sts hn bs len frame_size fec sc v hret
+
+/-- C `int` ranges.  The model computes with unbounded integers; on the domain the entry checks and the invariant
+    guarantee — the caller's buffer of `frame_size·channels` samples exists (so that product is an `int`), `len` is an
+    `opus_int32`, `DecInv`, the parser's bounds — every product / sum / difference formed by the skeleton fits 32 bits:
+    (a) the rate-derived sizes and scratch-buffer sizes; (b) `pcm_count·channels`, `frame_size − pcm_count`,
+    `channels·(frame_size − packet_frame_size)` of the concealment loop and the FEC branch; (c) `count·packet_frame_size`
+    (≤ 48·2880), `nb_samples·channels`, frame sizes ≤ 1275 and frame offsets below the packet length;
+    (d) `audiosize·channels`, `1000·audiosize/Fs`; (e) the redundancy arithmetic on `len ≤ 1275`; (f) the 16/24-bit
+    wrappers' stack buffer for requests up to one second; (g) multistream `2·frame_size`, `2·nb_streams − 1`. -/
+theorem int_ranges (st : DecState) (h : DecInv st) :
+    (I32 (F20 st) ∧ I32 (st.Fs / 25 * 3) ∧ st.Fs / 25 * 3 ≤ 5760 ∧ 0 ≤ st.frame_size ∧ st.frame_size ≤ 2880 ∧
+      I32 (F10 st * st.channels) ∧ I32 (F5 st * st.channels)) ∧
+    (∀ frame_size done : Int, I32 (frame_size * st.channels) → 0 ≤ done → done ≤ frame_size →
+      I32 (done * st.channels) ∧ I32 (frame_size - done) ∧ I32 (st.channels * (frame_size - done))) ∧
+    (∀ (bs : Bytes) (sd : Bool) (p : Parsed) (frame_size : Int), BytesOk bs → (bs.length : Int) ≤ 2147483647 →
+      parseImpl sd bs = .ok p → I32 (frame_size * st.channels) →
+      (p.count : Int) * (samplesPerFrame (bs.headD 0) st.Fs.toNat : Int) ≤ 48 * 2880 ∧
+      (∀ sz ∈ p.sizes, sz ≤ 1275) ∧ I32 ((p.payloadOffset : Int) + (sumN p.sizes : Int)) ∧ I32 (p.packetOffset : Int) ∧
+      ((p.count : Int) * (samplesPerFrame (bs.headD 0) st.Fs.toNat : Int) ≤ frame_size → ∀ nb : Int, 0 ≤ nb →
+        nb ≤ (p.count : Int) * (samplesPerFrame (bs.headD 0) st.Fs.toNat : Int) → I32 (nb * st.channels) ∧ I32 (frame_size - nb))) ∧
+    (∀ audiosize : Int, 0 ≤ audiosize → audiosize ≤ 2880 →
+      I32 (audiosize * st.channels) ∧ I32 (1000 * audiosize) ∧ I32 (cdiv (1000 * audiosize) st.Fs)) ∧
+    (∀ len tell v : Int, 0 ≤ len ∧ len ≤ 1275 → 0 ≤ tell ∧ tell ≤ 1073741824 → 0 ≤ v ∧ v < 256 →
+      I32 (tell + 17 + 20) ∧ I32 (8 * len) ∧ I32 (len - (tell + 7) / 8) ∧ I32 ((len - (v + 2)) * 8)) ∧
+    (∀ frame_size : Int, 0 < frame_size → frame_size ≤ st.Fs → I32 (frame_size * st.channels)) ∧
+    (∀ (frame_size : Int) (nb : Nat), 0 < frame_size → nb ≤ 255 →
+      I32 (2 * min frame_size (st.Fs / 25 * 3)) ∧ I32 (2 * (nb : Int) - 1)) := by
+  obtain ⟨a1, _, _, _, a5, a6, _, _, a9, a10, _, a12, a13⟩ := rate_sizes_i32 h
+  refine ⟨⟨a1, a5, a6, a9, a10, a12, a13⟩, fun fs d hb h0 hle => native_offsets_i32 h fs d hb h0 hle, ?_, ?_, ?_, ?_, ?_⟩
+  · intro bs sd p fs hb hl hp hbuf
+    obtain ⟨_, b2, b3, b4, b5, b6⟩ := native_frames_i32 h bs hb hl sd p hp fs hbuf
+    exact ⟨b2, b4, b5, b6, b3⟩
+  · intro a h0 hle
+    obtain ⟨c1, c2, _, c4⟩ := frame_sizes_i32 h a h0 hle
+    exact ⟨c1, c2, c4⟩
+  · intro len tell v hl ht hv
+    obtain ⟨d1, d2, d3, d4, _⟩ := redundancy_i32 len tell v hl ht hv
+    exact ⟨d1, d2, d3, d4⟩
+  · intro fs h0 h1; exact (wrapper_alloc_i32 h fs h0 h1).1
+  · intro fs nb h0 hnb
+    obtain ⟨e1, _, e3⟩ := ms_sizes_i32 st.Fs fs nb h.fs h0 hnb
+    exact ⟨e1, e3⟩
+
+/-- The return value (and with it `last_packet_duration` on success) of `opus_decode_native` depends on the packet only
+    through what the parser reports: two byte strings whose TOC bytes agree up to the two frame-count-code bits
+    (`toc / 4`) and which have the same frame count — e.g. a packet and its padded / repacketised form (code 0/1/2 → code 3) — give the same `nativeRet` for the same `frame_size` / `decode_fec` / rate. -/
+theorem nativeRet_depends_on_parse (st : DecState) (bs1 bs2 : Bytes) (sd1 sd2 : Bool) (p1 p2 : Parsed) (frame_size fec : Int)
+    (h1 : parseImpl sd1 bs1 = .ok p1) (h2 : parseImpl sd2 bs2 = .ok p2) (htoc : bs1.headD 0 / 4 = bs2.headD 0 / 4)
+    (hcount : p1.count = p2.count) :
+    nativeRet st (some bs1) bs1.length frame_size fec sd1 = nativeRet st (some bs2) bs2.length frame_size fec sd2 := by
+  have hne : ∀ (bs : Bytes) (sd : Bool) (p : Parsed), parseImpl sd bs = .ok p → bs ≠ [] := by
+    intro bs sd p h hnil; subst hnil; simp [parseImpl] at h
+  have hl1 : ¬ ((bs1.length : Int) = 0 ∨ (some bs1).isNone = true) := by
+    have := hne bs1 sd1 p1 h1; simp [this]
+  have hl2 : ¬ ((bs2.length : Int) = 0 ∨ (some bs2).isNone = true) := by
+    have := hne bs2 sd2 p2 h2; simp [this]
+  unfold nativeRet
+  by_cases c1 : fec < 0 ∨ fec > 1
+  · rw [if_pos c1, if_pos c1]
+  rw [if_neg c1, if_neg c1]
+  by_cases c2 : fec ≠ 0 ∧ cmod frame_size (st.Fs / 400) ≠ 0
+  · rw [if_pos ⟨Or.inl c2.1, c2.2⟩, if_pos ⟨Or.inl c2.1, c2.2⟩]
+  have d1 : ¬ ((fec ≠ 0 ∨ (bs1.length : Int) = 0 ∨ (some bs1).isNone = true) ∧ cmod frame_size (st.Fs / 400) ≠ 0) := by
+    rintro ⟨h | h, hm⟩
+    · exact c2 ⟨h, hm⟩
+    · exact hl1 h
+  have d2 : ¬ ((fec ≠ 0 ∨ (bs2.length : Int) = 0 ∨ (some bs2).isNone = true) ∧ cmod frame_size (st.Fs / 400) ≠ 0) := by
+    rintro ⟨h | h, hm⟩
+    · exact c2 ⟨h, hm⟩
+    · exact hl2 h
+  rw [if_neg d1, if_neg d2, if_neg hl1, if_neg hl2, if_neg (by omega), if_neg (by omega)]
+  have hspf : samplesPerFrame (bs1.headD 0) st.Fs.toNat = samplesPerFrame (bs2.headD 0) st.Fs.toNat := by
+    generalize bs1.headD 0 = t1 at htoc
+    generalize bs2.headD 0 = t2 at htoc
+    have e1 : t1 / 128 = t2 / 128 := by omega
+    have e2 : t1 / 32 = t2 / 32 := by omega
+    have e3 : t1 / 8 = t2 / 8 := by omega
+    unfold samplesPerFrame
+    rw [e1, e2, e3]
+  simp only [Option.getD_some, Int.toNat_natCast, List.take_length, h1, h2, hspf, hcount]
 
 end OpusProps.C01
